@@ -19,11 +19,38 @@ func readPoints(r io.Reader, byteOrder binary.ByteOrder) ([]geom.Point, error) {
 	if err := binary.Read(r, byteOrder, &numPoints); err != nil {
 		return nil, err
 	}
-	points := make([]geom.Point, numPoints)
-	if err := binary.Read(r, byteOrder, &points); err != nil {
-		return nil, err
+	// The count comes from untrusted input: read in bounded chunks so that
+	// memory only grows with the bytes that are actually there.
+	points := make([]geom.Point, 0, capHint(numPoints, maxPointChunk))
+	for remaining := numPoints; remaining > 0; {
+		n := remaining
+		if n > maxPointChunk {
+			n = maxPointChunk
+		}
+		chunk := make([]geom.Point, n)
+		if err := binary.Read(r, byteOrder, &chunk); err != nil {
+			return nil, err
+		}
+		points = append(points, chunk...)
+		remaining -= n
 	}
 	return points, nil
+}
+
+const (
+	// maxPointChunk is the number of points read (and allocated) at a time.
+	maxPointChunk = 1024
+	// maxMemberHint is the largest capacity reserved for a counted sequence
+	// of rings or member geometries before any of them has been read.
+	maxMemberHint = 16
+)
+
+// capHint limits a count read from the input to max.
+func capHint(n, max uint32) int {
+	if n > max {
+		return int(max)
+	}
+	return int(n)
 }
 
 func writePoint(w io.Writer, byteOrder binary.ByteOrder, point geom.Point) error {
